@@ -12,24 +12,36 @@ import (
 var repoDir, buildDir string
 
 var suitesByProp = map[string][]func(*runner, *rng){
-	"C12": {suiteOrder, suiteMerge},
-	"C09": {suiteAdd},
-	"C14": {suiteForce},
-	"C10": {suiteFragment},
-	"C11": {suiteUnfragment},
-	"C13": {suiteOptimize, suiteTtmlOptimize, suiteStylingParsed},
+	"C12": {suiteOrder, suiteMerge, suiteUnfragmentHuge},
+	"C09": {suiteAdd, suiteAddHuge},
+	"C14": {suiteForce, suiteForceHuge},
+	"C10": {suiteFragment, suiteFragmentHuge},
+	"C11": {suiteUnfragment, suiteUnfragmentHuge},
+	"C13": {suiteOptimize, suiteOptimizeAlias, suiteTtmlOptimize, suiteStylingParsed},
 	"C16": {suiteDur, suiteFracFloat},
+<<<<<<< HEAD
 	"C15": {suiteLin},
 	"C01": {suiteSrt, suiteLineBoundSrt},
 	"C02": {suiteVtt, suiteVttNeeds, suiteVttKeyed, suiteLineBoundVtt},
 	"C04": {suiteSsa, suiteSsaModel, suiteLineBoundSsa},
 	"C17": {suiteSchedules, suiteStlIO},
+=======
+	"C15": {suiteLin, suiteLinHuge},
+	"C01": {suiteSrt},
+	"C02": {suiteVtt, suiteVttNeeds},
+	"C04": {suiteSsa, suiteSsaModel},
+	"C17": {suiteSchedules, suiteStlIO, suiteTeletextFullReader, suiteTeletextSchedules},
+>>>>>>> upstream
 	"C19": {suiteDeterminism},
-	"C08": {suiteTotality, suiteTeletextHostile},
+	"C08": {suiteTotality, suiteTeletextHostile, suiteStlNilItems},
 	"C06": {suiteTeletext, suiteTeletextModel, suiteTeletextHamming},
+<<<<<<< HEAD
 	"C07": {suiteConvert, suiteConvertModel, suiteConvertOps, suiteConvertCLI, suiteConvertRich, suiteConvertPlain, suiteConvertCLIModel, suiteConvertPlainStyled, suiteConvertStlStyledSrt, suiteConvTtmlSsa, suiteConvTtmlVtt, suiteConvertPlainTtx, suiteConvertStyledTtx},
+=======
+	"C07": {suiteConvert, suiteConvertModel, suiteConvertOps, suiteConvertCLI, suiteConvertRich, suiteConvertPlain, suiteConvertCLIModel, suiteConvertPlainStyled, suiteConvertPlainTtx, suiteConvertStyledTtx, suiteConvertStlStyled, suiteConvertIllegalToTtml},
+>>>>>>> upstream
 	"C20": {suiteConcurrency},
-	"C18": {suiteFaults, suiteStlIO},
+	"C18": {suiteFaults, suiteStlIO, suiteTeletextFullReader, suiteTeletextFaults},
 	"C03": {suiteTtml},
 	"C05": {suiteStl},
 }
